@@ -495,6 +495,18 @@ where
 #[derive(Debug, Clone, Copy, PartialEq, Eq, PartialOrd, Ord, Hash)]
 pub struct DFAState(usize);
 
+/// Verification hooks (add-only, compiled only with the `verif-hooks` feature)
+#[cfg(feature = "verif-hooks")]
+impl DFAState {
+    pub fn verif_index(self) -> usize {
+        self.0
+    }
+
+    pub fn verif_from_index(index: usize) -> Self {
+        Self(index)
+    }
+}
+
 pub struct DFAStateInfo<T> {
     /// Input can be accepted at this point
     pub is_accepting: bool,
